@@ -1,9 +1,860 @@
-From Coq Require Import ZArith List Bool Lia.
-From V Require Import Val Bytes C10Hls.
+(* C10 — proofs about Model/C10Hls.v *)
+From Coq Require Import ZArith List Bool Lia ZifyBool.
+From V Require Import Val Bytes BytesLemmas C10Hls.
 Import ListNotations.
 Open Scope Z_scope.
 
+(* ================================================================== arithmetic: "%.3f" never exceeds the target *)
+Lemma rne_div_upper a b : 0 < b -> 2 * b * rne_div a b <= 2 * a + b.
+Proof.
+  intros Hb. unfold rne_div.
+  pose proof (Z.div_mod a b ltac:(lia)) as E.
+  pose proof (Z.mod_pos_bound a b Hb) as M.
+  set (q := a / b) in *. set (r := a mod b) in *.
+  destruct (2 * r <? b) eqn:H1; [nia|].
+  destruct (b <? 2 * r) eqn:H2; [nia|].
+  destruct (Z.even q); nia.
+Qed.
+
+Lemma rne_div_nonneg a b : 0 < b -> 0 <= a -> 0 <= rne_div a b.
+Proof.
+  intros Hb Ha. unfold rne_div.
+  pose proof (Z.div_pos a b Ha Hb).
+  destruct (2 * (a mod b) <? b); [lia|].
+  destruct (b <? 2 * (a mod b)); [lia|]. destruct (Z.even (a / b)); lia.
+Qed.
+
+(* the heart: two correctly rounded steps with a binary scale of at least 2^10 cannot reach the next second *)
+Lemma millis_core x P : 0 <= x -> 1024 <= P ->
+  rne_div (rne_div (x * P) TICKS * 1000) P <= (x / TICKS + 1) * 1000.
+Proof.
+  intros Hx HP. unfold TICKS.
+  pose proof (rne_div_upper (x * P) 90000 ltac:(lia)) as H1.
+  set (m := rne_div (x * P) 90000) in *.
+  pose proof (rne_div_upper (m * 1000) P ltac:(lia)) as H2.
+  set (t := rne_div (m * 1000) P) in *.
+  pose proof (Z.div_mod x 90000 ltac:(lia)) as E.
+  pose proof (Z.mod_pos_bound x 90000 ltac:(lia)) as M.
+  set (q := x / 90000) in *. set (r := x mod 90000) in *.
+  destruct (Z_le_gt_dec t ((q + 1) * 1000)) as [|Hgt]; [assumption|exfalso].
+  assert (Ht : (q + 1) * 1000 + 1 <= t) by lia.
+  assert (2 * P * ((q + 1) * 1000 + 1) <= 2 * P * t) by (apply Z.mul_le_mono_nonneg_l; lia).
+  assert (x * P <= (90000 * q + 89999) * P) by (apply Z.mul_le_mono_nonneg_r; lia).
+  nia.
+Qed.
+
+Lemma log2_lt_53 x : 0 < x -> x < 2 ^ 53 -> Z.log2 x < 53.
+Proof. intros. apply Z.log2_lt_pow2; lia. Qed.
+
+Lemma millis_le_target x : 0 <= x < 2 ^ 53 -> millis x <= (x / TICKS + 1) * 1000.
+Proof.
+  intros [H0 H1]. unfold millis, fl_div90k.
+  destruct (x <=? 0) eqn:Hz.
+  - assert (x = 0) by lia. subst. cbn. lia.
+  - pose proof (log2_lt_53 x ltac:(lia) H1) as HL.
+    pose proof (Z.log2_nonneg x) as HL0.
+    set (k0 := 69 - Z.log2 x) in *.
+    set (k := if 2 ^ 53 <=? Z.shiftl x k0 / TICKS then k0 - 1 else k0).
+    assert (Hk : 16 <= k) by (subst k; destruct (2 ^ 53 <=? Z.shiftl x k0 / TICKS); lia).
+    destruct (k <=? 0) eqn:Hk0; [lia|].
+    rewrite Z.shiftl_mul_pow2 by lia.
+    apply millis_core; [lia|].
+    change 1024 with (2 ^ 10). apply Z.pow_le_mono_r; lia.
+Qed.
+
+(* ================================================================== small list facts *)
 Lemma overlay_firstn : forall new old, firstn (length new) (overlay new old) = new.
 Proof.
   intros. unfold overlay. rewrite firstn_app, Nat.sub_diag, firstn_all. cbn. apply app_nil_r.
+Qed.
+
+Lemma consecutive_app n a b :
+  consecutive n (a ++ b) = consecutive n a && consecutive (n + Z.of_nat (length a)) b.
+Proof.
+  revert n. induction a as [|x a IH]; intros n; cbn [app consecutive length].
+  - rewrite Z.add_0_r. reflexivity.
+  - rewrite IH. rewrite andb_assoc. f_equal. f_equal. lia.
+Qed.
+
+Lemma consecutive_skipn k : forall n l, consecutive n l = true ->
+  consecutive (n + Z.of_nat (Nat.min k (length l))) (skipn k l) = true.
+Proof.
+  induction k as [|k IH]; intros n l H.
+  - cbn. rewrite Z.add_0_r. exact H.
+  - destruct l as [|x l]; cbn [skipn length Nat.min].
+    + reflexivity.
+    + cbn [consecutive] in H. apply andb_true_iff in H as [_ H].
+      specialize (IH _ _ H). replace (n + Z.of_nat (S (Nat.min k (length l)))) with (n + 1 + Z.of_nat (Nat.min k (length l))) by lia.
+      exact IH.
+Qed.
+
+Lemma consecutive_map_in n l x : consecutive n l = true -> In x l -> n <= x < n + Z.of_nat (length l).
+Proof.
+  revert n. induction l as [|y l IH]; intros n H Hin; [destruct Hin|].
+  cbn [consecutive] in H. apply andb_true_iff in H as [H1 H2]. cbn [length].
+  destruct Hin as [->|Hin]; [lia|]. specialize (IH _ H2 Hin). lia.
+Qed.
+
+Lemma list_eqb_refl {A} (e : A -> A -> bool) (l : list A) : (forall x, e x x = true) -> list_eqb e l l = true.
+Proof. intros H. induction l; cbn; [reflexivity|]. rewrite H, IHl. reflexivity. Qed.
+
+Lemma max_dur_acc l : forall m, m <= fold_left (fun m g => if m <? s_dur g then s_dur g else m) l m.
+Proof.
+  induction l as [|g l IH]; intros m; cbn; [lia|].
+  destruct (m <? s_dur g) eqn:E; [etransitivity; [|apply IH]; lia | apply IH].
+Qed.
+Lemma max_dur_acc_in l : forall m g, In g l -> s_dur g <= fold_left (fun m g => if m <? s_dur g then s_dur g else m) l m.
+Proof.
+  induction l as [|h l IH]; intros m g Hin; [destruct Hin|]. cbn.
+  destruct Hin as [->|Hin]; [|apply IH; exact Hin].
+  destruct (m <? s_dur g) eqn:E; [apply max_dur_acc | etransitivity; [|apply max_dur_acc]; lia].
+Qed.
+Lemma max_dur_ge l g : In g l -> s_dur g <= max_dur l.
+Proof. apply max_dur_acc_in. Qed.
+
+(* ================================================================== the primitives *)
+Definition curl (s : st) : list seg := match cur s with Some g => [g] | None => [] end.
+
+Lemma release_all_fields l : forall s,
+  let s' := release_all l s in
+  seqno s' = seqno s /\ cur s' = cur s /\ cache s' = cache s /\ jbase s' = jbase s /\ jn s' = jn s /\
+  pl s' = pl s /\ closed s' = closed s /\ dropped s' = dropped s /\ nextb s' = nextb s /\
+  free s' = rev (map s_buf l) ++ free s.
+Proof.
+  induction l as [|g l IH]; intros s; cbn [release_all].
+  - cbn. repeat split; reflexivity.
+  - specialize (IH (release g s)). cbn zeta in *. cbn [release seqno cur cache jbase jn pl closed dropped nextb free] in IH.
+    destruct IH as (A&B&C&D&E&F&G&H&I&J). repeat split; try assumption.
+    rewrite J. cbn [map rev]. rewrite <- app_assoc. reflexivity.
+Qed.
+
+(* segmentClose on an open segment: either dropped (number reused) or appended and the window trimmed *)
+Inductive closed_as (s : st) (g : seg) (s' : st) : Prop :=
+| CA_drop : s_dur g < MIN_TICKS -> seqno s' = seqno s - 1 -> pl s' = pl s -> closed s' = closed s ->
+            dropped s' = dropped s ++ [g] -> free s' = s_buf g :: free s -> closed_as s g s'
+| CA_keep : MIN_TICKS <= s_dur g -> seqno s' = seqno s ->
+            pl s' = skipn (length (pl s) + 1 - 3) (pl s ++ [g]) -> closed s' = closed s ++ [g] ->
+            dropped s' = dropped s ->
+            free s' = rev (map s_buf (firstn (length (pl s) + 1 - 3) (pl s ++ [g]))) ++ free s -> closed_as s g s'.
+
+Lemma segment_close_spec s g : cur s = Some g ->
+  let s' := segment_close s in
+  cur s' = None /\ cache s' = cache s /\ jbase s' = jbase s /\ jn s' = jn s /\ nextb s' = nextb s /\
+  closed_as s g s'.
+Proof.
+  intros Hc. unfold segment_close. rewrite Hc. cbn zeta.
+  destruct (s_dur g <? MIN_TICKS) eqn:Hd.
+  - cbn. repeat split; try reflexivity. apply CA_drop; cbn; try reflexivity. lia.
+  - unfold add_segment, clear_segments. cbn [pl set_pl add_closed set_cur].
+    rewrite app_length. cbn [length].
+    destruct (WINDOW <? length (pl s) + 1)%nat eqn:Hw.
+    + match goal with |- context [release_all ?l ?x] => pose proof (release_all_fields l x) as R end.
+      cbn zeta in R. destruct R as (A&B&C&D&E&F&G&H&I&J).
+      cbn [set_pl seqno cur cache jbase jn pl closed dropped nextb free].
+      cbn [set_pl add_closed set_cur seqno cur cache jbase jn pl closed dropped nextb free] in *.
+      repeat split; try assumption.
+      apply CA_keep; cbn [set_pl seqno cur cache jbase jn pl closed dropped nextb free]; try assumption; try lia.
+      * reflexivity.
+    + cbn. repeat split; try reflexivity.
+      unfold WINDOW in Hw.
+      assert (E : (length (pl s) + 1 - 3 = 0)%nat) by lia.
+      apply CA_keep; cbn; rewrite ?E; try reflexivity. lia.
+Qed.
+
+Lemma segment_open_spec c start hdr a s : cur s = None ->
+  let s' := segment_open c start hdr a s in
+  exists b,
+    cur s' = Some {| s_seq := seqno s + 1; s_start := start; s_dur := 0; s_hdr := hdr; s_aud := a; s_frames := []; s_buf := b |} /\
+    seqno s' = seqno s + 1 /\ cache s' = cache s /\ jbase s' = jbase s /\ jn s' = jn s /\
+    pl s' = pl s /\ closed s' = closed s /\ dropped s' = dropped s /\
+    ((exists l1 l2, free s = l1 ++ b :: l2 /\ free s' = l1 ++ l2 /\ nextb s' = nextb s) \/
+     (b = nextb s /\ free s' = free s /\ nextb s' = nextb s + 1)).
+Proof.
+  intros Hc. unfold segment_open. rewrite Hc. unfold alloc.
+  remember (c_pick c (free s)) as n eqn:Hnn. clear Hnn.
+  destruct (nth_error (free s) n) as [b|] eqn:Hn.
+  - exists b. cbn. repeat split; try reflexivity. left.
+    apply nth_error_split in Hn as (l1 & l2 & E & L). exists l1, l2. split; [exact E|]. split; [|reflexivity].
+    rewrite E, <- L. clear. induction l1; cbn; [reflexivity|]. f_equal. exact IHl1.
+  - exists (nextb s). cbn. repeat split; try reflexivity. right. repeat split; reflexivity.
+Qed.
+
+Lemma flush_cache_spec s :
+  let s' := flush_cache s in
+  seqno s' = seqno s /\ jbase s' = jbase s /\ jn s' = jn s /\ pl s' = pl s /\ closed s' = closed s /\
+  dropped s' = dropped s /\ free s' = free s /\ nextb s' = nextb s /\
+  match cache s with
+  | None => s' = s
+  | Some a => cache s' = None /\ cur s' = option_map (seg_write (cache_frame a)) (cur s)
+  end.
+Proof.
+  unfold flush_cache. destruct (cache s) as [a|] eqn:Hc.
+  - unfold flush_frame. destruct (cur s) as [g|] eqn:Hg; cbn; rewrite ?Hg; repeat split; reflexivity.
+  - cbn. repeat split; reflexivity.
+Qed.
+
+Lemma reap_spec c start a s g : cur s = Some g ->
+  let s' := reap c start a s in
+  exists s1 g',
+    closed_as s g s1 /\ nextb s1 = nextb s /\
+    cur s' = Some g' /\ s_seq g' = seqno s1 + 1 /\ s_start g' = start /\ s_hdr g' = false /\ s_aud g' = a /\
+    match cache s with
+    | None => s_frames g' = [] /\ s_dur g' = 0
+    | Some ca => s_frames g' = [cache_frame ca] /\ s_dur g' = (if a_pts ca <? start then 0 else a_pts ca - start)
+    end /\
+    cache s' = None /\ seqno s' = seqno s1 + 1 /\ pl s' = pl s1 /\ closed s' = closed s1 /\ dropped s' = dropped s1 /\
+    jbase s' = jbase s /\ jn s' = jn s /\
+    ((exists l1 l2, free s1 = l1 ++ s_buf g' :: l2 /\ free s' = l1 ++ l2 /\ nextb s' = nextb s1) \/
+     (s_buf g' = nextb s1 /\ free s' = free s1 /\ nextb s' = nextb s1 + 1)).
+Proof.
+  intros Hc. unfold reap.
+  pose proof (segment_close_spec s g Hc) as SC. cbn zeta in SC.
+  set (s1 := segment_close s) in *. destruct SC as (C1 & C2 & C3 & C4 & C5 & CA).
+  pose proof (segment_open_spec c start false a s1 C1) as SO. cbn zeta in SO.
+  set (s2 := segment_open c start false a s1) in *.
+  destruct SO as (b & O1 & O2 & O3 & O4 & O5 & O6 & O7 & O8 & O9).
+  pose proof (flush_cache_spec s2) as FC. cbn zeta in FC.
+  set (s3 := flush_cache s2) in *.
+  destruct FC as (F1 & F2 & F3 & F4 & F5 & F6 & F7 & F8 & F9).
+  rewrite O3, C2 in F9.
+  destruct (cache s) as [ca|] eqn:Hca.
+  - destruct F9 as [F9 F10]. rewrite O1 in F10. cbn [option_map] in F10.
+    eexists s1, _. split; [exact CA|]. split; [exact C5|]. split; [exact F10|].
+    cbn [seg_write s_seq s_start s_hdr s_aud s_frames s_dur s_buf cache_frame w_pts app].
+    repeat split; try reflexivity; try congruence.
+    destruct O9 as [(l1 & l2 & E1 & E2 & E3)|(E1 & E2 & E3)]; [left; exists l1, l2|right]; repeat split; congruence.
+  - subst s3. rewrite F9 in *.
+    eexists s1, _. split; [exact CA|]. split; [exact C5|]. split; [exact O1|].
+    cbn [s_seq s_start s_hdr s_aud s_frames s_dur s_buf].
+    repeat split; try reflexivity; try congruence.
+Qed.
+
+(* ================================================================== invariant 1: numbering and the window *)
+Definition lastno (s : st) : Z := match cur s with Some _ => seqno s - 1 | None => seqno s end.
+
+Record Inv1 (s : st) : Prop := {
+  i_curseq : forall g, cur s = Some g -> s_seq g = seqno s;
+  i_cons : consecutive (lastno s - Z.of_nat (length (pl s)) + 1) (map s_seq (pl s)) = true;
+  i_len : (length (pl s) <= 3)%nat;
+  i_suffix : exists pre, closed s = pre ++ pl s;
+  i_recent : cur s <> None -> length (pl s) = Nat.min 3 (length (closed s))
+}.
+
+Definition shape (s : st) := (seqno s, option_map s_seq (cur s), pl s, closed s).
+
+Lemma Inv1_shape s s' : shape s = shape s' -> Inv1 s -> Inv1 s'.
+Proof.
+  unfold shape. intros E [A B C D F]. injection E as E1 E2 E3 E4.
+  assert (L : lastno s' = lastno s).
+  { unfold lastno. destruct (cur s), (cur s'); cbn in E2; try discriminate; lia. }
+  constructor.
+  - intros g Hg. rewrite Hg in E2. destruct (cur s) as [g0|] eqn:H0; [|discriminate].
+    cbn in E2. injection E2 as E2. rewrite <- E1, <- E2. apply A. reflexivity.
+  - rewrite L, <- E3. exact B.
+  - rewrite <- E3. exact C.
+  - rewrite <- E3, <- E4. exact D.
+  - intros Hn. rewrite <- E3, <- E4. apply F. destruct (cur s); [discriminate|]. destruct (cur s'); [discriminate|]. congruence.
+Qed.
+
+Lemma Inv1_init c : Inv1 (init c).
+Proof.
+  unfold init. pose proof (segment_open_spec c 0 true false init_free eq_refl) as SO. cbn zeta in SO.
+  destruct SO as (b & O1 & O2 & O3 & O4 & O5 & O6 & O7 & O8 & O9).
+  constructor; unfold lastno; rewrite ?O1, ?O6, ?O7, ?O2; cbn.
+  - intros g Hg. injection Hg as <-. reflexivity.
+  - reflexivity.
+  - lia.
+  - exists []. reflexivity.
+  - reflexivity.
+Qed.
+
+Lemma skipn_app_suffix {A} (pre l : list A) k : exists pre', pre ++ l = pre' ++ skipn k l.
+Proof. exists (pre ++ firstn k l). rewrite <- app_assoc, firstn_skipn. reflexivity. Qed.
+
+Lemma Inv1_reap c start a s g : cur s = Some g -> Inv1 s -> Inv1 (reap c start a s).
+Proof.
+  intros Hc [A B C D F].
+  pose proof (reap_spec c start a s g Hc) as R. cbn zeta in R.
+  destruct R as (s1 & g' & CA & _ & R1 & R2 & _ & _ & _ & _ & _ & R3 & R4 & R5 & _).
+  specialize (A _ Hc). specialize (F ltac:(congruence)).
+  unfold lastno in B. rewrite Hc in B.
+  constructor; unfold lastno; rewrite ?R1, ?R3, ?R4, ?R5.
+  - intros x Hx. injection Hx as <-. exact R2.
+  - destruct CA as [Hd E1 E2 E3 E4 E5 | Hd E1 E2 E3 E4 E5]; rewrite E1, E2.
+    + replace (seqno s - 1 + 1 - 1) with (seqno s - 1) by lia. exact B.
+    + rewrite skipn_length, app_length. cbn [length].
+      assert (K : consecutive (seqno s - 1 - Z.of_nat (length (pl s)) + 1) (map s_seq (pl s ++ [g])) = true).
+      { rewrite map_app, consecutive_app, B, map_length. cbn. rewrite A. lia. }
+      pose proof (consecutive_skipn (length (pl s) + 1 - 3) _ _ K) as K2.
+      rewrite <- map_skipn in K2 || rewrite skipn_map in K2.
+      rewrite map_length, app_length in K2. cbn [length] in K2.
+      match goal with |- consecutive ?n _ = true => replace n with
+        (seqno s - 1 - Z.of_nat (length (pl s)) + 1 + Z.of_nat (Nat.min (length (pl s) + 1 - 3) (length (pl s) + 1))) by lia end.
+      exact K2.
+  - destruct CA as [Hd E1 E2 E3 E4 E5 | Hd E1 E2 E3 E4 E5]; rewrite E2; [exact C|].
+    rewrite skipn_length, app_length. cbn [length]. lia.
+  - destruct D as [pre D].
+    destruct CA as [Hd E1 E2 E3 E4 E5 | Hd E1 E2 E3 E4 E5]; rewrite E2, E3.
+    + exists pre. exact D.
+    + rewrite D, <- app_assoc. apply skipn_app_suffix.
+  - intros _. destruct CA as [Hd E1 E2 E3 E4 E5 | Hd E1 E2 E3 E4 E5]; rewrite E2, E3; [exact F|].
+    rewrite skipn_length, !app_length. cbn [length]. lia.
+Qed.
+
+(* ================================================================== a preservation principle for WriteMpegtsFrame *)
+Lemma jitter_start_snd c pts s : exists b n, snd (jitter_start c pts s) = set_jit b n s.
+Proof.
+  unfold jitter_start. destruct (_ && _); cbn; eauto.
+Qed.
+
+Lemma write_frame_preserves_q (P : st -> Prop) (Q : acache -> Prop) c f s :
+  (forall s a, P s -> Q a -> P (set_cache (Some a) s)) ->
+  (forall s a0 es src, P s -> cache s = Some a0 -> Q {| a_pts := a_pts a0; a_es := es; a_src := src |}) ->
+  (forall s es src, Q {| a_pts := fst (jitter_start c (f_pts f) s); a_es := es; a_src := src |}) ->
+  (forall s b n, P s -> P (set_jit b n s)) ->
+  (forall s, P s -> P (flush_cache s)) ->
+  (forall s g, P s -> cur s = Some g -> abs_overflow c s = true -> P (reap c (f_pts f) true s)) ->
+  (forall s g, P s -> cur s = Some g -> is_audio (f_kind f) = false -> P (flush_frame (video_frame c f) s)) ->
+  (forall s g, P s -> cur s = Some g -> is_key (f_kind f) = true -> overflow c s = true ->
+               P (flush_frame (video_frame c f) (reap c (f_pts f) false s))) ->
+  P s -> P (write_frame c f s).
+Proof.
+  intros Hc HQ1 HQ2 Hj Hfc Hra Hv Hrv HP. unfold write_frame.
+  destruct (cur s) as [g|] eqn:Hg; [|exact HP].
+  destruct (f_pay f) as [|p0 pay] eqn:Hp; [exact HP|].
+  destruct (is_audio (f_kind f)) eqn:Ha.
+  - destruct (cache s) as [a0|] eqn:Hca.
+    + cbn zeta.
+      set (s1 := set_cache _ _).
+      assert (P1 : P s1).
+      { subst s1. apply Hc; [apply Hj, HP|]. eapply HQ1; [exact HP | exact Hca]. }
+      assert (C1 : cur s1 = Some g) by (subst s1; cbn; exact Hg).
+      destruct (AAC_DELAY <? _); [apply Hfc, P1|].
+      destruct (abs_overflow c s1) eqn:Ho; [eapply Hra; eauto | exact P1].
+    + pose proof (HQ2 s) as HQ2'.
+      destruct (jitter_start c (f_pts f) s) as [p s0] eqn:Hjs.
+      destruct (jitter_start_snd c (f_pts f) s) as (b & n & E). rewrite Hjs in E. cbn in E. subst s0.
+      cbn zeta. cbn [fst] in HQ2'.
+      set (s1 := set_cache _ _).
+      assert (P1 : P s1) by (subst s1; apply Hc; [apply Hj, HP | apply HQ2']).
+      assert (C1 : cur s1 = Some g) by (subst s1; cbn; exact Hg).
+      destruct (AAC_DELAY <? _); [apply Hfc, P1|].
+      destruct (abs_overflow c s1) eqn:Ho; [eapply Hra; eauto | exact P1].
+  - destruct (is_key (f_kind f) && overflow c s) eqn:Hk.
+    + apply andb_true_iff in Hk as [K1 K2]. eapply Hrv; eauto.
+    + eapply Hv; eauto.
+Qed.
+
+Lemma write_frame_preserves (P : st -> Prop) c f s :
+  (forall s o, P s -> P (set_cache o s)) ->
+  (forall s b n, P s -> P (set_jit b n s)) ->
+  (forall s, P s -> P (flush_cache s)) ->
+  (forall s g, P s -> cur s = Some g -> abs_overflow c s = true -> P (reap c (f_pts f) true s)) ->
+  (forall s g, P s -> cur s = Some g -> is_audio (f_kind f) = false -> P (flush_frame (video_frame c f) s)) ->
+  (forall s g, P s -> cur s = Some g -> is_key (f_kind f) = true -> overflow c s = true ->
+               P (flush_frame (video_frame c f) (reap c (f_pts f) false s))) ->
+  P s -> P (write_frame c f s).
+Proof.
+  intros Hc. apply (write_frame_preserves_q P (fun _ => True)); auto.
+Qed.
+
+Lemma shape_flush_frame w s : shape (flush_frame w s) = shape s.
+Proof. unfold flush_frame, shape. destruct (cur s) as [g|] eqn:Hg; cbn; rewrite ?Hg; reflexivity. Qed.
+Lemma shape_flush_cache s : shape (flush_cache s) = shape s.
+Proof.
+  unfold flush_cache. destruct (cache s); [|reflexivity].
+  transitivity (shape (flush_frame (cache_frame a) s)); [reflexivity | apply shape_flush_frame].
+Qed.
+
+Lemma cur_flush_frame w s g : cur s = Some g -> cur (flush_frame w s) = Some (seg_write w g).
+Proof. intros H. unfold flush_frame. rewrite H. reflexivity. Qed.
+
+Lemma Inv1_write_frame c f s : Inv1 s -> Inv1 (write_frame c f s).
+Proof.
+  apply write_frame_preserves.
+  - intros s0 o H. eapply Inv1_shape; [|exact H]. reflexivity.
+  - intros s0 b n H. eapply Inv1_shape; [|exact H]. reflexivity.
+  - intros s0 H. eapply Inv1_shape; [|exact H]. symmetry. apply shape_flush_cache.
+  - intros s0 g H Hg _. eapply Inv1_reap; eauto.
+  - intros s0 g H Hg _. eapply Inv1_shape; [|exact H]. symmetry. apply shape_flush_frame.
+  - intros s0 g H Hg _ _. eapply Inv1_shape; [symmetry; apply shape_flush_frame|]. eapply Inv1_reap; eauto.
+Qed.
+
+(* the segment generator always has an open segment (until Close) *)
+Lemma cur_open_write_frame c f s : cur s <> None -> cur (write_frame c f s) <> None.
+Proof.
+  apply (write_frame_preserves (fun s => cur s <> None)).
+  - intros; assumption.
+  - intros; assumption.
+  - intros s0 H. pose proof (shape_flush_cache s0) as E. unfold shape in E. injection E as _ E _ _.
+    destruct (cur (flush_cache s0)); [discriminate|]. destruct (cur s0); [discriminate|congruence].
+  - intros s0 g _ Hg _. pose proof (reap_spec c (f_pts f) true s0 g Hg) as R. cbn zeta in R.
+    destruct R as (s1 & g' & _ & _ & R1 & _). congruence.
+  - intros s0 g _ Hg _. rewrite (cur_flush_frame _ _ _ Hg). discriminate.
+  - intros s0 g _ Hg _ _. pose proof (reap_spec c (f_pts f) false s0 g Hg) as R. cbn zeta in R.
+    destruct R as (s1 & g' & _ & _ & R1 & _). rewrite (cur_flush_frame _ _ _ R1). discriminate.
+Qed.
+
+Lemma cur_open_init c : cur (init c) <> None.
+Proof.
+  unfold init. pose proof (segment_open_spec c 0 true false init_free eq_refl) as SO. cbn zeta in SO.
+  destruct SO as (b & O1 & _). congruence.
+Qed.
+
+(* ================================================================== the playlist window *)
+Lemma entries_ok_map c tok target live : forall l n,
+  consecutive n (map s_seq l) = true ->
+  (forall g, In g l -> mem_z (s_seq g) live = true) ->
+  (forall g, In g l -> millis (s_dur g) <= target * 1000) ->
+  entries_ok c tok n target live (map (entry_of c tok) l) = true.
+Proof.
+  induction l as [|g l IH]; intros n Hc Hl Hm; [reflexivity|].
+  cbn [map consecutive] in Hc. apply andb_true_iff in Hc as [H1 H2].
+  cbn [map entries_ok entry_of e_uri e_tok e_ms].
+  apply Z.eqb_eq in H1. rewrite <- H1.
+  rewrite !bytes_eqb_refl, (Hl g (or_introl eq_refl)). cbn [andb].
+  apply andb_true_iff. split.
+  - apply Z.leb_le. apply Hm. left. reflexivity.
+  - rewrite H1. apply IH; [exact H2 | |]; intros; [apply Hl | apply Hm]; right; assumption.
+Qed.
+
+Lemma mem_z_in x l : In x l -> mem_z x l = true.
+Proof. intros H. unfold mem_z. apply existsb_exists. exists x. split; [exact H | apply Z.eqb_refl]. Qed.
+
+Definition durs_ok (s : st) : Prop := forall g, In g (pl s) -> 0 <= s_dur g < 2 ^ 53.
+
+Lemma view_ok_model c tok s v : Inv1 s -> durs_ok s -> m3u8 c tok s = Some v ->
+  view_ok c tok (live_seqs s) v = true /\
+  v_entries v = map (entry_of c tok) (pl s) /\ length (pl s) = 3%nat /\
+  (forall g, nth_error (pl s) 0 = Some g -> v_mseq v = s_seq g).
+Proof.
+  intros [A B C D F] Hd Hm. unfold m3u8 in Hm.
+  destruct (pl s) as [|g0 rest] eqn:Hpl; [discriminate|].
+  destruct (length (g0 :: rest) <? WINDOW)%nat eqn:Hw; [discriminate|].
+  injection Hm as <-. unfold WINDOW in Hw.
+  assert (L : length (g0 :: rest) = 3%nat) by lia.
+  split; [|split; [reflexivity|split; [exact L|]]].
+  - unfold view_ok. cbn [v_entries v_mseq v_target].
+    change (entry_of c tok g0 :: map (entry_of c tok) rest) with (map (entry_of c tok) (g0 :: rest)).
+    rewrite map_length, L. cbn [Nat.eqb WINDOW andb].
+    apply entries_ok_map.
+    + cbn [map consecutive] in B |- *. apply andb_true_iff in B as [B1 B2].
+      rewrite Z.eqb_refl. cbn [andb]. apply Z.eqb_eq in B1. rewrite B1. exact B2.
+    + intros g Hg. apply mem_z_in. unfold live_seqs. rewrite Hpl. apply in_map. exact Hg.
+    + intros g Hg. rewrite <- Hpl in Hg.
+      pose proof (Hd g Hg) as R. pose proof (millis_le_target _ R) as M.
+      pose proof (max_dur_ge _ _ Hg) as X. rewrite <- Hpl.
+      assert (s_dur g / TICKS <= max_dur (pl s) / TICKS) by (apply Z.div_le_mono; [unfold TICKS; lia | exact X]).
+      lia.
+  - intros g Hg. cbn in Hg. injection Hg as <-. reflexivity.
+Qed.
+
+(* ================================================================== invariant 2: durations stay small and non-negative *)
+Definition BOUND : Z := 2 ^ 34.
+Record Inv2 (s : st) : Prop := {
+  d_segs : forall g, In g (pl s ++ curl s) -> 0 <= s_start g /\ 0 <= s_dur g < BOUND;
+  d_cache : forall a, cache s = Some a -> a_pts a < BOUND
+}.
+
+Lemma in_skipn {A} (x : A) k l : In x (skipn k l) -> In x l.
+Proof. intros H. rewrite <- (firstn_skipn k l). apply in_or_app. right. exact H. Qed.
+
+Lemma closed_as_pl_in s g s1 x : closed_as s g s1 -> In x (pl s1) -> In x (pl s) \/ x = g.
+Proof.
+  intros [Hd E1 E2 E3 E4 E5 | Hd E1 E2 E3 E4 E5] Hin; rewrite E2 in Hin.
+  - left. exact Hin.
+  - apply in_skipn, in_app_or in Hin. destruct Hin as [H|[H|[]]]; [left|right]; auto.
+Qed.
+
+Lemma seg_write_range w g : 0 <= s_start g -> 0 <= s_dur g < BOUND -> w_pts w < BOUND ->
+  0 <= s_start (seg_write w g) /\ 0 <= s_dur (seg_write w g) < BOUND.
+Proof.
+  intros H1 H2 H3. unfold seg_write. cbn [s_start s_dur]. destruct (w_pts w <? s_start g) eqn:E; lia.
+Qed.
+
+Lemma Inv2_flush_frame w s : w_pts w < BOUND -> Inv2 s -> Inv2 (flush_frame w s).
+Proof.
+  intros Hw [A B]. unfold flush_frame. destruct (cur s) as [g|] eqn:Hg; [|constructor; assumption].
+  constructor; cbn [set_cur pl cache]; [|exact B].
+  intros x Hin. unfold curl in *. cbn [set_cur cur] in Hin. rewrite Hg in A.
+  apply in_app_or in Hin. destruct Hin as [Hin|[<-|[]]].
+  - apply A, in_or_app. left. exact Hin.
+  - destruct (A g ltac:(apply in_or_app; right; left; reflexivity)) as [A1 A2].
+    apply seg_write_range; assumption.
+Qed.
+
+Lemma Inv2_flush_cache s : Inv2 s -> Inv2 (flush_cache s).
+Proof.
+  intros H. unfold flush_cache. destruct (cache s) as [a|] eqn:Ha; [|exact H].
+  pose proof (d_cache _ H a Ha) as Hb.
+  pose proof (Inv2_flush_frame (cache_frame a) s Hb H) as [A B].
+  constructor; [exact A | intros x Hx; discriminate].
+Qed.
+
+Lemma Inv2_reap c start a s g : 0 <= start < BOUND -> cur s = Some g -> Inv2 s -> Inv2 (reap c start a s).
+Proof.
+  intros Hs Hc [A B].
+  pose proof (reap_spec c start a s g Hc) as R. cbn zeta in R.
+  destruct R as (s1 & g' & CA & _ & R1 & _ & R2 & _ & _ & R3 & R4 & _ & R5 & _).
+  constructor; [|intros x Hx; congruence].
+  intros x Hin. unfold curl in Hin. rewrite R1, R5 in Hin.
+  apply in_app_or in Hin. destruct Hin as [Hin|[<-|[]]].
+  - destruct (closed_as_pl_in _ _ _ _ CA Hin) as [H| ->]; apply A, in_or_app; [left; exact H|].
+    right. unfold curl. rewrite Hc. left. reflexivity.
+  - rewrite R2. destruct (cache s) as [ca|] eqn:Hca.
+    + destruct R3 as [_ ->]. specialize (B _ eq_refl). destruct (a_pts ca <? start) eqn:E; lia.
+    + destruct R3 as [_ ->]. unfold BOUND. lia.
+Qed.
+
+Lemma jitter_start_bound c pts s : pts < 2 ^ 33 -> fst (jitter_start c pts s) < BOUND.
+Proof.
+  intros H. unfold jitter_start, BOUND, AAC_SYNC.
+  destruct (_ && _) eqn:E; cbn [fst]; lia.
+Qed.
+
+Lemma Inv2_write_frame c f s : frame_wf f = true -> Inv2 s -> Inv2 (write_frame c f s).
+Proof.
+  intros Hf. unfold frame_wf, PTS_MAX in Hf.
+  assert (Hp : 0 <= f_pts f < 2 ^ 33) by lia.
+  apply (write_frame_preserves_q Inv2 (fun a => a_pts a < BOUND)).
+  - intros s0 a [A B] Ha. constructor; [exact A|]. intros x Hx. cbn in Hx. injection Hx as <-. exact Ha.
+  - intros s0 a0 es src H Hc. cbn. eapply d_cache; eauto.
+  - intros s0 es src. cbn. apply jitter_start_bound. lia.
+  - intros s0 b n [A B]. constructor; assumption.
+  - apply Inv2_flush_cache.
+  - intros s0 g H Hg _. eapply Inv2_reap; eauto. unfold BOUND. lia.
+  - intros s0 g H Hg _. apply Inv2_flush_frame; [cbn; unfold BOUND; lia | exact H].
+  - intros s0 g H Hg _ _. apply Inv2_flush_frame; [cbn; unfold BOUND; lia|].
+    eapply Inv2_reap; eauto. unfold BOUND. lia.
+Qed.
+
+Lemma Inv2_init c : Inv2 (init c).
+Proof.
+  unfold init. pose proof (segment_open_spec c 0 true false init_free eq_refl) as SO. cbn zeta in SO.
+  destruct SO as (b & O1 & O2 & O3 & O4 & O5 & O6 & _).
+  constructor.
+  - intros g Hin. unfold curl in Hin. rewrite O1, O6 in Hin. cbn in Hin. destruct Hin as [<-|[]]. cbn. unfold BOUND. lia.
+  - intros a Ha. rewrite O3 in Ha. discriminate.
+Qed.
+
+Lemma Inv2_durs_ok s : Inv2 s -> durs_ok s.
+Proof.
+  intros [A _] g Hg. destruct (A g (in_or_app _ _ _ (or_introl Hg))) as [_ H]. unfold BOUND in H. lia.
+Qed.
+
+(* ================================================================== invariant 3: segments opened at a key frame start with it *)
+Definition key_started (c : cfg) (fs : list wframe) : bool :=
+  match first_video fs with
+  | Some w => w_key w && is_prefix (key_header c) (w_es w)
+  | None => false
+  end.
+
+Definition Inv3 (c : cfg) (s : st) : Prop :=
+  forall g, In g (pl s ++ curl s) -> s_hdr g = false -> s_aud g = false -> key_started c (s_frames g) = true.
+
+Lemma first_video_app fs w :
+  first_video (fs ++ [w]) =
+  match first_video fs with Some x => Some x | None => if w_pid w =? VPID then Some w else None end.
+Proof.
+  unfold first_video. induction fs as [|x fs IH]; cbn [app find].
+  - destruct (w_pid w =? VPID); reflexivity.
+  - destruct (w_pid x =? VPID); [reflexivity | exact IH].
+Qed.
+
+Lemma key_started_app c fs w : key_started c fs = true -> key_started c (fs ++ [w]) = true.
+Proof.
+  unfold key_started. rewrite first_video_app. destruct (first_video fs); [auto | discriminate].
+Qed.
+
+Lemma key_started_starts c fs : key_started c fs = true -> starts_with_key c fs = true.
+Proof. unfold key_started, starts_with_key. destruct (first_video fs); [auto | discriminate]. Qed.
+
+Lemma Inv3_flush_frame c w s : Inv3 c s -> Inv3 c (flush_frame w s).
+Proof.
+  intros H. unfold flush_frame. destruct (cur s) as [g|] eqn:Hg; [|exact H].
+  intros x Hin. unfold curl in *. cbn [set_cur cur pl] in Hin. unfold Inv3, curl in H. rewrite Hg in H.
+  apply in_app_or in Hin. destruct Hin as [Hin|[<-|[]]].
+  - apply H, in_or_app. left. exact Hin.
+  - cbn [seg_write s_hdr s_aud s_frames]. intros H1 H2. apply key_started_app.
+    apply H; [apply in_or_app; right; left; reflexivity | exact H1 | exact H2].
+Qed.
+
+Lemma Inv3_flush_cache c s : Inv3 c s -> Inv3 c (flush_cache s).
+Proof.
+  intros H. unfold flush_cache. destruct (cache s) as [a|]; [|exact H].
+  pose proof (Inv3_flush_frame c (cache_frame a) s H) as H'. exact H'.
+Qed.
+
+Lemma Inv3_reap_pl c start a s g x : cur s = Some g -> Inv3 c s -> In x (pl (reap c start a s)) ->
+  s_hdr x = false -> s_aud x = false -> key_started c (s_frames x) = true.
+Proof.
+  intros Hc H Hin.
+  pose proof (reap_spec c start a s g Hc) as R. cbn zeta in R.
+  destruct R as (s1 & g' & CA & _ & R1 & _ & R2 & _ & _ & R3 & R4 & _ & R5 & _).
+  rewrite R5 in Hin. destruct (closed_as_pl_in _ _ _ _ CA Hin) as [Hx| ->]; apply H, in_or_app; [left; exact Hx|].
+  right. unfold curl. rewrite Hc. left. reflexivity.
+Qed.
+
+Lemma Inv3_reap_audio c start s g : cur s = Some g -> Inv3 c s -> Inv3 c (reap c start true s).
+Proof.
+  intros Hc H x Hin.
+  apply in_app_or in Hin. destruct Hin as [Hin|Hin]; [eapply (Inv3_reap_pl c start true s g); eauto|].
+  pose proof (reap_spec c start true s g Hc) as R. cbn zeta in R.
+  destruct R as (s1 & g' & CA & _ & R1 & _ & _ & _ & R2 & _).
+  unfold curl in Hin. rewrite R1 in Hin. destruct Hin as [<-|[]]. intros _ Ha. congruence.
+Qed.
+
+Lemma is_key_KK k : is_key k = true -> k = KK.
+Proof. destruct k; cbn; congruence. Qed.
+
+Lemma Inv3_reap_video c f s g : cur s = Some g -> is_key (f_kind f) = true -> Inv3 c s ->
+  Inv3 c (flush_frame (video_frame c f) (reap c (f_pts f) false s)).
+Proof.
+  intros Hc Hk H.
+  pose proof (reap_spec c (f_pts f) false s g Hc) as R. cbn zeta in R.
+  destruct R as (s1 & g' & CA & _ & R1 & _ & _ & _ & _ & R3 & _).
+  intros x Hin. apply in_app_or in Hin.
+  unfold flush_frame in Hin. rewrite R1 in Hin. unfold curl in Hin. cbn [set_cur pl cur] in Hin.
+  destruct Hin as [Hin|[<-|[]]]; [eapply (Inv3_reap_pl c (f_pts f) false s g); eauto|].
+  intros _ _. cbn [seg_write s_frames]. unfold key_started. rewrite first_video_app.
+  assert (V : (let w := video_frame c f in w_key w && is_prefix (key_header c) (w_es w)) = true).
+  { cbn zeta. unfold video_frame. cbn [w_key w_es]. rewrite Hk. cbn [andb]. apply is_prefix_app. rewrite (is_key_KK _ Hk). cbn [video_header].
+    exists (f_pay f). reflexivity. }
+  cbn zeta in V.
+  destruct (cache s) as [ca|]; destruct R3 as [-> _]; cbn [first_video find cache_frame w_pid APID VPID Z.eqb Pos.eqb]; exact V.
+Qed.
+
+Lemma Inv3_write_frame c f s : Inv3 c s -> Inv3 c (write_frame c f s).
+Proof.
+  apply write_frame_preserves.
+  - intros s0 o H. exact H.
+  - intros s0 b n H. exact H.
+  - apply Inv3_flush_cache.
+  - intros s0 g H Hg _. eapply Inv3_reap_audio; eauto.
+  - intros s0 g H Hg _. apply Inv3_flush_frame. exact H.
+  - intros s0 g H Hg Hk _. eapply Inv3_reap_video; eauto.
+Qed.
+
+Lemma Inv3_init c : Inv3 c (init c).
+Proof.
+  unfold init. pose proof (segment_open_spec c 0 true false init_free eq_refl) as SO. cbn zeta in SO.
+  destruct SO as (b & O1 & O2 & O3 & O4 & O5 & O6 & _).
+  intros g Hin. unfold curl in Hin. rewrite O1, O6 in Hin. cbn in Hin. destruct Hin as [<-|[]]. cbn. discriminate.
+Qed.
+
+(* the discontinuity flag marks segment number 1 only *)
+Definition Inv3h (s : st) : Prop := forall g, In g (pl s ++ curl s) -> s_hdr g = true -> s_seq g = 1.
+
+Lemma Inv3h_flush_frame w s : Inv3h s -> Inv3h (flush_frame w s).
+Proof.
+  intros H. unfold flush_frame. destruct (cur s) as [g|] eqn:Hg; [|exact H].
+  intros x Hin. unfold curl in *. cbn [set_cur cur pl] in Hin. unfold Inv3h, curl in H. rewrite Hg in H.
+  apply in_app_or in Hin. destruct Hin as [Hin|[<-|[]]].
+  - apply H, in_or_app. left. exact Hin.
+  - cbn [seg_write s_hdr s_seq]. apply H. apply in_or_app; right; left; reflexivity.
+Qed.
+Lemma Inv3h_flush_cache s : Inv3h s -> Inv3h (flush_cache s).
+Proof.
+  intros H. unfold flush_cache. destruct (cache s) as [a|]; [|exact H].
+  exact (Inv3h_flush_frame (cache_frame a) s H).
+Qed.
+Lemma Inv3h_reap c start a s g : cur s = Some g -> Inv3h s -> Inv3h (reap c start a s).
+Proof.
+  intros Hc H x Hin.
+  pose proof (reap_spec c start a s g Hc) as R. cbn zeta in R.
+  destruct R as (s1 & g' & CA & _ & R1 & _ & _ & R2 & _ & _ & _ & _ & R5 & _).
+  unfold curl in Hin. rewrite R1, R5 in Hin. apply in_app_or in Hin. destruct Hin as [Hin|[<-|[]]].
+  - destruct (closed_as_pl_in _ _ _ _ CA Hin) as [Hx| ->]; apply H, in_or_app; [left; exact Hx|].
+    right. unfold curl. rewrite Hc. left. reflexivity.
+  - congruence.
+Qed.
+Lemma Inv3h_write_frame c f s : Inv3h s -> Inv3h (write_frame c f s).
+Proof.
+  apply write_frame_preserves.
+  - intros s0 o H. exact H.
+  - intros s0 b n H. exact H.
+  - apply Inv3h_flush_cache.
+  - intros s0 g H Hg _. eapply Inv3h_reap; eauto.
+  - intros s0 g H Hg _. apply Inv3h_flush_frame. exact H.
+  - intros s0 g H Hg Hk _. apply Inv3h_flush_frame. eapply Inv3h_reap; eauto.
+Qed.
+Lemma Inv3h_init c : Inv3h (init c).
+Proof.
+  unfold init. pose proof (segment_open_spec c 0 true false init_free eq_refl) as SO. cbn zeta in SO.
+  destruct SO as (b & O1 & O2 & O3 & O4 & O5 & O6 & _).
+  intros g Hin. unfold curl in Hin. rewrite O1, O6 in Hin. cbn in Hin. destruct Hin as [<-|[]]. cbn. reflexivity.
+Qed.
+
+(* ================================================================== all invariants, over histories *)
+Record Inv (c : cfg) (s : st) : Prop := { inv1 : Inv1 s; inv2 : Inv2 s; inv3 : Inv3 c s; inv3h : Inv3h s }.
+
+Lemma Inv_init c : Inv c (init c).
+Proof. constructor; [apply Inv1_init | apply Inv2_init | apply Inv3_init | apply Inv3h_init]. Qed.
+
+Lemma Inv_write_frame c f s : frame_wf f = true -> Inv c s -> Inv c (write_frame c f s).
+Proof.
+  intros Hf [A B C D]. constructor;
+    [apply Inv1_write_frame | apply Inv2_write_frame | apply Inv3_write_frame | apply Inv3h_write_frame]; assumption.
+Qed.
+
+Lemma close_all_spec s :
+  let s' := close_all s in
+  cur s' = None /\ pl s' = [] /\ closed s' = closed s /\ cache s' = cache s /\ seqno s' = seqno s /\ dropped s' = dropped s.
+Proof.
+  unfold close_all.
+  set (s1 := match cur s with Some g => release g (set_cur None s) | None => s end).
+  assert (E : cur s1 = None /\ pl s1 = pl s /\ closed s1 = closed s /\ cache s1 = cache s /\ seqno s1 = seqno s /\ dropped s1 = dropped s).
+  { subst s1. destruct (cur s) eqn:Hc; cbn; repeat split; try reflexivity. exact Hc. }
+  destruct E as (E1 & E2 & E3 & E4 & E5 & E6).
+  unfold clear_segments. destruct (0 <? length (pl s1))%nat eqn:Hn.
+  - rewrite Nat.sub_0_r, skipn_all.
+    match goal with |- context [release_all ?l ?x] => pose proof (release_all_fields l x) as R end.
+    cbn zeta in R. destruct R as (A&B&C&D&E&F&G&H&I&J).
+    cbn [set_pl seqno cur cache jbase jn pl closed dropped nextb free].
+    repeat split; congruence.
+  - cbn zeta. assert (length (pl s1) = 0%nat) by lia. destruct (pl s1) eqn:Hp; [|discriminate].
+    repeat split; congruence.
+Qed.
+
+Lemma Inv_close_all c s : Inv c s -> Inv c (close_all s).
+Proof.
+  intros [A B C D]. pose proof (close_all_spec s) as R. cbn zeta in R. destruct R as (R1 & R2 & R3 & R4 & R5 & R6).
+  constructor.
+  - constructor; unfold lastno; rewrite ?R1, ?R2, ?R3; cbn.
+    + intros g Hg. discriminate.
+    + reflexivity.
+    + lia.
+    + exists (closed s). rewrite app_nil_r. reflexivity.
+    + intros H. congruence.
+  - constructor.
+    + intros g Hin. unfold curl in Hin. rewrite R1, R2 in Hin. destruct Hin.
+    + intros a Ha. rewrite R4 in Ha. eapply d_cache; eauto.
+  - intros g Hin. unfold curl in Hin. rewrite R1, R2 in Hin. destruct Hin.
+  - intros g Hin. unfold curl in Hin. rewrite R1, R2 in Hin. destruct Hin.
+Qed.
+
+Definition step_st (c : cfg) (s : st) (o : op) : st :=
+  match o with OFrame f => write_frame c f s | OClose => close_all s | _ => s end.
+
+Lemma step_r_st c dtok r o : r_st (fst (step c dtok r o)) = step_st c (r_st r) o.
+Proof.
+  unfold step. destruct o; cbn [step_st]; try reflexivity.
+  - destruct (fetch c seq (r_st r)); reflexivity.
+  - destruct (m3u8 c tok (r_st r)); reflexivity.
+Qed.
+
+Lemma Inv_step_st c s o : op_wf o = true -> Inv c s -> Inv c (step_st c s o).
+Proof.
+  intros Hw H. destruct o; cbn [step_st]; try exact H.
+  - apply Inv_write_frame; assumption.
+  - apply Inv_close_all; assumption.
+Qed.
+
+(* ================================================================== the oracle accepts the model *)
+Lemma wframe_eqb_refl w : wframe_eqb w w = true.
+Proof. unfold wframe_eqb. rewrite !Z.eqb_refl, eqb_reflx, bytes_eqb_refl. reflexivity. Qed.
+Lemma segobs_eqb_refl g : segobs_eqb g g = true.
+Proof. unfold segobs_eqb. rewrite eqb_reflx, (list_eqb_refl _ _ wframe_eqb_refl). reflexivity. Qed.
+Lemma entry_eqb_refl e : entry_eqb e e = true.
+Proof. unfold entry_eqb. rewrite eqb_reflx, Z.eqb_refl, !bytes_eqb_refl. reflexivity. Qed.
+Lemma view_eqb_refl v : view_eqb v v = true.
+Proof. unfold view_eqb. rewrite !Z.eqb_refl, (list_eqb_refl _ _ entry_eqb_refl). reflexivity. Qed.
+Lemma newseg_eqb_refl x : newseg_eqb x x = true.
+Proof. unfold newseg_eqb. rewrite Z.eqb_refl, segobs_eqb_refl. reflexivity. Qed.
+Lemma opres_eqb_refl r : opres_eqb r r = true.
+Proof.
+  destruct r as [|b|o|b|o]; cbn; try apply eqb_reflx; try reflexivity.
+  - destruct o; cbn; [apply segobs_eqb_refl | reflexivity].
+  - destruct o; cbn; [apply bytes_eqb_refl | reflexivity].
+Qed.
+
+Lemma insert_sorted_length x l : length (insert_sorted x l) = S (length l).
+Proof. induction l as [|y l IH]; cbn; [reflexivity|]. destruct (x <=? y); cbn; [reflexivity | rewrite IH; reflexivity]. Qed.
+Lemma sort_z_length l : length (sort_z l) = length l.
+Proof. unfold sort_z. induction l as [|x l IH]; cbn [fold_right length]; [reflexivity|]. rewrite insert_sorted_length, IH. reflexivity. Qed.
+
+Lemma first_video_strip fs : first_video (map strip fs) = option_map strip (first_video fs).
+Proof.
+  unfold first_video. induction fs as [|w fs IH]; cbn [map find]; [reflexivity|].
+  cbn [strip w_pid]. destruct (w_pid w =? VPID); [reflexivity | exact IH].
+Qed.
+Lemma starts_with_key_strip c fs : starts_with_key c (map strip fs) = starts_with_key c fs.
+Proof. unfold starts_with_key. rewrite first_video_strip. destruct (first_video fs); reflexivity. Qed.
+
+Lemma find_seg_consecutive l : forall n g, consecutive n (map s_seq l) = true -> In g l -> find_seg (s_seq g) l = Some g.
+Proof.
+  induction l as [|x l IH]; intros n g Hc Hin; [destruct Hin|].
+  cbn [map consecutive] in Hc. apply andb_true_iff in Hc as [H1 H2]. cbn [find_seg].
+  destruct Hin as [->|Hin]; [rewrite Z.eqb_refl; reflexivity|].
+  pose proof (consecutive_map_in _ _ (s_seq g) H2 (in_map s_seq _ _ Hin)) as R.
+  destruct (s_seq x =? s_seq g) eqn:E; [lia|]. eapply IH; eauto.
+Qed.
+
+Lemma res_ok_step c dtok r o : res_ok (o_res (snd (step c dtok r o))) = true.
+Proof.
+  unfold step. destruct o; cbn; try reflexivity.
+  - destruct (fetch c seq (r_st r)); reflexivity.
+  - destruct (nth_z (r_readers r) h) as [[fs|b fs]|]; reflexivity.
+  - destruct (m3u8 c tok (r_st r)); reflexivity.
+Qed.
+
+Lemma o_fields_step c dtok r o :
+  let s' := step_st c (r_st r) o in
+  let ob := snd (step c dtok r o) in
+  o_pl ob = match m3u8 c dtok s' with Some v => Some (v, render v) | None => None end /\
+  o_live ob = live_seqs s' /\ o_files ob = file_seqs c s' /\
+  o_new ob = map (fun g => (s_seq g, obs_of_frames (s_frames g)))
+                 (filter (fun g => negb (mem_z (s_seq g) (r_prev r))) (pl s')).
+Proof.
+  unfold step. destruct o; cbn [step_st]; try (cbn; repeat split; reflexivity).
+  - destruct (fetch c seq (r_st r)); cbn; repeat split; reflexivity.
+  - destruct (m3u8 c tok (r_st r)); cbn; repeat split; reflexivity.
+Qed.
+
+Lemma ok_step_model c dtok r o : Inv c (step_st c (r_st r) o) ->
+  ok_step c dtok false (step c dtok r o) (snd (step c dtok r o)) = true.
+Proof.
+  intros [I1 I2 I3 I3h].
+  pose proof (o_fields_step c dtok r o) as F. cbn zeta in F. destruct F as (F1 & F2 & F3 & F4).
+  pose proof (res_ok_step c dtok r o) as RO.
+  unfold ok_step. rewrite step_r_st.
+  set (s' := step_st c (r_st r) o) in *.
+  set (ob := snd (step c dtok r o)) in *.
+  rewrite RO, opres_eqb_refl, (list_eqb_refl _ _ newseg_eqb_refl), !(list_eqb_refl _ _ Z.eqb_refl).
+  rewrite !andb_true_r.
+  repeat (apply andb_true_iff; split).
+  - rewrite F1. destruct (m3u8 c dtok s') as [v|] eqn:Hm; [|reflexivity].
+    rewrite bytes_eqb_refl, view_eqb_refl, F2.
+    destruct (view_ok_model c dtok s' v I1 (Inv2_durs_ok _ I2) Hm) as [V _]. rewrite V. reflexivity.
+  - rewrite F2. unfold live_seqs. rewrite map_length. apply Nat.leb_le. unfold WINDOW. apply (i_len _ I1).
+  - rewrite F3. unfold file_seqs. destruct (c_mem c); [reflexivity|].
+    rewrite sort_z_length, app_length. unfold live_seqs. rewrite map_length.
+    pose proof (i_len _ I1). apply Nat.leb_le. unfold WINDOW. destruct (cur s'); cbn [length]; lia.
+  - rewrite F4. apply forallb_forall. intros x Hx. apply in_map_iff in Hx as (g & <- & _). reflexivity.
+  - rewrite F4. apply forallb_forall. intros x Hx. apply in_map_iff in Hx as (g & <- & Hg).
+    apply filter_In in Hg as [Hg _]. cbn [fst snd obs_of_frames g_frames negb andb].
+    rewrite starts_with_key_strip.
+    destruct (s_seq g <=? 1) eqn:E1; [reflexivity|]. cbn [orb].
+    unfold opened_by_audio. rewrite (find_seg_consecutive _ _ _ (i_cons _ I1) Hg).
+    destruct (s_aud g) eqn:Ea; [reflexivity|]. cbn [orb].
+    apply key_started_starts. apply I3; [apply in_or_app; left; exact Hg | | exact Ea].
+    destruct (s_hdr g) eqn:Eh; [|reflexivity].
+    pose proof (I3h g ltac:(apply in_or_app; left; exact Hg) Eh). lia.
+Qed.
+
+Lemma ok_run_from c dtok : forall ops r, forallb op_wf ops = true -> Inv c (r_st r) ->
+  ok_steps c dtok false (run_from c dtok r ops) (map snd (run_from c dtok r ops)) = true.
+Proof.
+  induction ops as [|o ops IH]; intros r Hw HI; [reflexivity|].
+  cbn [forallb] in Hw. apply andb_true_iff in Hw as [H1 H2].
+  cbn [run_from]. destruct (step c dtok r o) as [r' ob] eqn:Hs. cbn [map ok_steps snd].
+  pose proof (Inv_step_st c _ o H1 HI) as HI'.
+  pose proof (ok_step_model c dtok r o HI') as K. rewrite Hs in K. cbn [snd] in K. rewrite K. cbn [andb].
+  apply IH; [exact H2|]. pose proof (step_r_st c dtok r o) as E. rewrite Hs in E. cbn [fst] in E. rewrite E. exact HI'.
+Qed.
+
+Theorem model_passes_oracle c dtok ops : wf c ops = true -> ok c dtok false ops (model c dtok ops) = true.
+Proof.
+  intros Hw. unfold wf in Hw. apply andb_true_iff in Hw as [_ Hw].
+  unfold ok, model, run. apply ok_run_from; [exact Hw | apply Inv_init].
 Qed.
